@@ -2,7 +2,7 @@
    This file holds only the pinned statements; the proofs are in proofs/. *)
 From Coq Require Import Reals List Bool.
 From AltModel Require Import Num Interp Powertrain Loco.
-From AltProofs Require Import NumR InterpP PowertrainP LocoP C08P.
+From AltProofs Require Import NumR InterpP PowertrainP LocoP C08P ExampleP.
 Import ListNotations.
 Open Scope R_scope.
 
@@ -42,3 +42,9 @@ Proof. exact eta_check_always_true. Qed.
 Check C08_step : forall (l l' : Loco (F:=R)) pwr dt on,
   loco_ok l -> 0 < dt -> loco_sim_solve_step l pwr dt on = Ok l' ->
   loco_ok l' /\ second_law_step l l' pwr on /\ cum_le l l'.
+
+(* non-vacuity: a concrete well-formed locomotive, and an engine step that is accepted *)
+Example C08_hypotheses_satisfiable : loco_ok loco0.
+Proof. exact loco0_ok. Qed.
+Example C08_engine_step_accepted : exists c', fc_solve fc1 100 1 true true = Ok c'.
+Proof. exact fc1_step_accepted. Qed.
